@@ -228,9 +228,8 @@ def gen_fmt_core_lines(rng, n, fmt):
             v = wire.sort_keys(v)
         ls.append(enc_line(fmt, kind, "-", v))
     for i in INT_EDGES:
-        if i <= imax:
-            ls.append(enc_line(fmt, "j", "-", i))
-            ls.append(enc_line(fmt, "o", "-", [i, Obj([(b"k", i)])]))
+        ls.append(enc_line(fmt, "j", "-", i))                  # above imax (UBJSON: 2^63 … 2^64-1) both sides must refuse
+        ls.append(enc_line(fmt, "o", "-", [i, Obj([(b"k", i)])]))
     for _ in range(200):
         bits = rng.choice([7, 8, 15, 16, 31, 32, 33, 62, 63, 64])
         i = rng.getrandbits(bits)
@@ -257,6 +256,8 @@ def gen_fmt_core_lines(rng, n, fmt):
 
 
 def compare_bytes(line, io, mo):
+    if mo == "err":
+        return io.startswith("err")          # the model refuses exactly what the real encoder refuses
     return io.split(" | ")[0] == mo
 
 
@@ -277,6 +278,18 @@ def oracle(line, impl, model, ref=None):
 
 
 def in_domain(fmt, v):
+    """UBJSON has no unsigned 64-bit integer: a value containing an integer above 2^63-1 is outside its domain"""
+    if fmt == "ubjson":
+        if isinstance(v, bool):
+            return True
+        if isinstance(v, int):
+            return v < 2 ** 63
+        if isinstance(v, list):
+            return all(in_domain(fmt, x) for x in v)
+        if isinstance(v, Obj):
+            return all(in_domain(fmt, x) for _, x in v.members)
+        if isinstance(v, Tagged):
+            return in_domain(fmt, v.value)
     return True
 
 
@@ -358,6 +371,9 @@ def streams(ctx, rng, scale):
     rngm = vlib.rng_for(ctx.seed, "c06/msgpack-model")
     lmp = gen_fmt_core_lines(rngm, 1000 * scale, "msgpack")
     ctx.correspond("msgpack-encoder-model", HARNESS, lmp, oracle, nontrivial, compare=compare_bytes, model_lines=[model_line(l) for l in lmp])
+    rngu = vlib.rng_for(ctx.seed, "c06/ubjson-model")
+    lub = gen_fmt_core_lines(rngu, 1000 * scale, "ubjson")
+    ctx.correspond("ubjson-encoder-model", HARNESS, lub, oracle, nontrivial, compare=compare_bytes, model_lines=[model_line(l) for l in lub])
     lbf = gen_bigfloat_lines(rng, 400 * scale)
     ctx.correspond("cbor-bigfloat-model", HARNESS, lbf, bigfloat_oracle, lambda l, i: l if len(l) > 60 else None, compare=compare_bigfloat,
                    model_lines=[bigfloat_model_line(l) for l in lbf])
